@@ -25,14 +25,14 @@ META = {
 BAD_VERSIONS = [0, 7, 8, 64, 67, 127]
 
 
-def run_impl(data_chunks, reqs, pv=4):
-    """-> (events, obs per read, final buffer bytes)"""
+def run_impl(data_chunks, reqs, pv=4, wspec=None):
+    """-> (events, obs per read, final buffer bytes, watcher iteration order per event type)"""
     Conn = F.fake_conn_class()
     holder = [None]
     with F.PushRecorder(holder):
         c = Conn(protocol_version=pv)
         holder[0] = c
-        c.watch()
+        c.watch(wspec)
         for r in reqs:
             c.expect(r)
         obs = []
@@ -45,10 +45,15 @@ def run_impl(data_chunks, reqs, pv=4):
             else:
                 obs.append((n, len(c._io_buffer.io_buffer.getvalue()), 1 if c._current_frame else 0))
         buf = b'' if c.is_defunct else c._io_buffer.io_buffer.getvalue()
-        return list(c.events), obs, buf
+        return list(c.events), obs, buf, dict(c.watcher_order)
 
 
-def oracle(ctx, frames, tail_ok, data_chunks, reqs, events, obs, case):
+def event_type_of(body):
+    n = int.from_bytes(body[:2], 'big')
+    return bytes(body[2:2 + n]).decode('ascii').upper()
+
+
+def oracle(ctx, frames, tail_ok, data_chunks, reqs, events, obs, case, worder=None):
     """the statement of C05 applied to what the implementation did (valid frame streams only)."""
     encs = [F.enc_frame(*f) for f in frames]
     ends, p = [], 0
@@ -81,8 +86,14 @@ def oracle(ctx, frames, tail_ok, data_chunks, reqs, events, obs, case):
     for f, r in zip(frames, rt):
         h = (f[0], f[1], f[2], f[3], len(f[4]))
         if f[2] < 0:
-            ok = r[0] == 'W' and r[1] == h and r[2] == bytes(f[4]) and r[3] == 1
+            ok = r[0] == 'W' and r[1] == h and r[2] == bytes(f[4])
             key = 'route.push-not-to-watchers'
+            if ok and worder is not None:
+                # every watcher registered for this event type is called exactly once, whichever of them raise
+                want = sorted(w for w, _ in worder.get(event_type_of(f[4]), []))
+                if sorted(r[3]) != want:
+                    ok = False
+                    key = 'route.push-watcher-skipped'
         elif f[2] in pending:
             pending.remove(f[2])
             ok = r[0] == 'H' and r[1] == f[2] and r[2] == h and r[3] == bytes(f[4]) and r[4] == 1
@@ -91,25 +102,44 @@ def oracle(ctx, frames, tail_ok, data_chunks, reqs, events, obs, case):
             ok = r[0] == 'X'
             key = 'route.unsolicited-delivered'
         if not ok:
-            ctx.violation(key, 'frame stream=%d routed as %r' % (f[2], r[:2]), case=case, expected='stream %d' % f[2], actual=repr(r)[:200],
+            what = 'frame stream=%d routed as %r' % (f[2], r[:2])
+            if key == 'route.push-watcher-skipped':
+                what = ('pushed %s event (stream %d): watchers %r are registered (id, raises) but only %r were called' % (
+                    event_type_of(f[4]), f[2], worder.get(event_type_of(f[4])), r[3]))
+            ctx.violation(key, what, case=case, expected='stream %d' % f[2], actual=repr(r)[:200],
                           theorem='C05_routing')
             return False
     return True
 
 
-def mk_case(frames, cuts, reqs, raw=None):
+def mk_case(frames, cuts, reqs, raw=None, wspec=None):
     return {'frames': [[f[0], f[1], f[2], f[3], bytes(f[4]).hex()] for f in frames], 'cuts': list(cuts), 'reqs': list(reqs),
-            'raw_tail': (raw or b'').hex()}
+            'raw_tail': (raw or b'').hex(), 'watchers': wspec}
 
 
-def eval_case(ctx, frames, tail, cuts, reqs, valid, cases, meta, nontrivial=True):
+def gen_wspec(rng):
+    """1-3 watchers per event type, some of which raise (the default of the first wave was one well-behaved watcher)"""
+    if rng.random() < 0.3:
+        return None
+    return {et: [rng.random() < 0.45 for _ in range(rng.randint(1, 3))] for et in ('TOPOLOGY_CHANGE', 'STATUS_CHANGE', 'SCHEMA_CHANGE')}
+
+
+def eval_case(ctx, frames, tail, cuts, reqs, valid, cases, meta, nontrivial=True, wspec=None):
     data = b''.join(F.enc_frame(*f) for f in frames) + tail
     chunks = F.chunk(data, cuts)
-    events, obs, buf = run_impl(chunks, reqs)
-    case = mk_case(frames, cuts, reqs, tail)
+    events, obs, buf, worder = run_impl(chunks, reqs, wspec=wspec)
+    case = mk_case(frames, cuts, reqs, tail, wspec)
     ok = True
     if valid:
-        ok = oracle(ctx, frames, True, chunks, reqs, events, obs, case)
+        ok = oracle(ctx, frames, True, chunks, reqs, events, obs, case, worder)
+    # handle_pushed against the model: watchers in the set's iteration order, ids actually called
+    for f, r in zip(frames, F.routed(events)):
+        if f[2] < 0 and r[0] == 'W' and valid:
+            ws = worder.get(event_type_of(f[4]), [])
+            cases.append('c05_push_case [%s] %s' % (';'.join('(%d,%s)' % (w, 'true' if x else 'false') for w, x in ws), F.zlist(r[3])))
+            meta.append((case, [('push', list(ws), list(r[3]))]))
+            ctx.count('watchers_per_push', len(ws))
+            ctx.count('raising_watchers_per_push', sum(1 for _, x in ws if x))
     ctx.case(case, nontrivial=nontrivial and len(frames) > 0 and len(cuts) > 0,
              sample={'frames': case['frames'][:3], 'cuts': cuts[:8], 'delivered': sum(1 for e in events if e[0] == 'M')})
     ctx.count('n_frames', len(frames))
@@ -176,10 +206,10 @@ def run(ctx):
     ctx.rule = ('frame streams (v1-v4 headers mostly, also v5/v6/DSE; stream ids of both signs incl. boundary ids; empty bodies; EVENT bodies for '
                 'negative ids) x chunkings: EVERY single split point of short streams (exhaustive), all-1-byte reads, random k-splits incl. empty '
                 'reads; separate malformed stream (bad version byte, negative length, truncated). non-trivial = distinct (frames, chunking) with >= 1 '
-                'frame and >= 1 split')
+                'frame and >= 1 split; 1-4 watchers per event type, each raising with probability ~1/2 (every registered watcher must be called)')
     for c in load_corpus('C05'):
         frames, tail, cuts, reqs = case_from_json(c)
-        eval_case(ctx, frames, tail, cuts, reqs, c.get('valid', True), cases, meta)
+        eval_case(ctx, frames, tail, cuts, reqs, c.get('valid', True), cases, meta, wspec=c.get('watchers'))
     # 1. exhaustive single splits of short streams
     n_short = 12 if quick else 60
     for _ in range(n_short):
@@ -190,9 +220,10 @@ def run(ctx):
         if rng.random() < 0.3:
             t = F.enc_frame(*F.gen_frame(rng, maxbody=6, neg_ok=False))
             tail = t[:rng.randint(0, len(t) - 1)]
+        ws = gen_wspec(rng)
         for cut in range(0, data_len + len(tail) + 1):
-            eval_case(ctx, frames, tail, [cut], reqs, True, cases, meta)
-        eval_case(ctx, frames, tail, list(range(1, data_len + len(tail))), reqs, True, cases, meta)   # one byte at a time
+            eval_case(ctx, frames, tail, [cut], reqs, True, cases, meta, wspec=ws)
+        eval_case(ctx, frames, tail, list(range(1, data_len + len(tail))), reqs, True, cases, meta, wspec=ws)   # one byte at a time
     ctx.exhaustive = True
     # 2. random k-splits of longer streams, all versions
     for _ in range(150 if quick else 1500):
@@ -201,7 +232,20 @@ def run(ctx):
         n = sum(len(F.enc_frame(*f)) for f in frames)
         k = rng.choice([0, 1, 2, 3, 5, 9, n // 2 + 1])
         cuts = F.splits_k(rng, n, k)
-        eval_case(ctx, frames, b'', cuts, gen_reqs(rng, frames), True, cases, meta)
+        eval_case(ctx, frames, b'', cuts, gen_reqs(rng, frames), True, cases, meta, wspec=gen_wspec(rng))
+    # 2b. pushed events with several watchers per event type, some of which raise (handle_pushed must call every one)
+    for _ in range(60 if quick else 600):
+        ver = rng.choice([1, 2, 3, 4, 4, 5])
+        frames = []
+        for _k in range(rng.randint(1, 4)):
+            if rng.random() < 0.75:
+                frames.append((ver, 0, -1, 0x0C, F.event_body(rng)))
+            else:
+                frames.append(F.gen_frame(rng, versions=(ver,), maxbody=8, neg_ok=False))
+        n = sum(len(F.enc_frame(*f)) for f in frames)
+        ws = {et: [rng.random() < 0.5 for _w in range(rng.randint(2, 4))] for et in ('TOPOLOGY_CHANGE', 'STATUS_CHANGE', 'SCHEMA_CHANGE')}
+        eval_case(ctx, frames, b'', F.splits_k(rng, n, rng.choice([0, 1, 3])), gen_reqs(rng, frames), True, cases, meta, wspec=ws)
+        ctx.count('kind', 'multi-watcher-push')
     # 3. malformed / truncated
     for _ in range(80 if quick else 600):
         frames = [F.gen_frame(rng, maxbody=8) for _ in range(rng.randint(0, 3))]
@@ -240,9 +284,9 @@ def replay(ctx, rp):
     frames, tail, cuts, reqs = case_from_json(case)
     data = b''.join(F.enc_frame(*f) for f in frames) + tail
     chunks = F.chunk(data, cuts)
-    events, obs, buf = run_impl(chunks, reqs)
+    events, obs, buf, worder = run_impl(chunks, reqs, wspec=case.get('watchers'))
     print('replay: %d frames, chunk sizes %r -> events %r' % (len(frames), [len(c) for c in chunks], [(e[0],) + tuple(e[1:2]) for e in events]))
-    ok = oracle(ctx, frames, True, chunks, reqs, events, obs, case)
+    ok = oracle(ctx, frames, True, chunks, reqs, events, obs, case, worder)
     print('not reproduced' if ok else 'VIOLATION property=C05 replay=%s' % ctx.replay_path)
     for v in ctx.violations:
         print('  ' + v.what)
